@@ -101,6 +101,10 @@ type Exec struct {
 	recoverOwner []*Frame
 	known        map[string]bool
 	env          *EnvState
+	hashMemo     map[string][]*Term
+	hashSeq      int
+	blsPK        []*Term
+	blsSigs      map[string][]*Term
 	freshDefs    map[string]FreshDef
 	varBounds    map[string]ivl
 	boundMemo    map[int]ivl
